@@ -85,6 +85,15 @@ def run_consistency(case):
             return jnp.asarray(b)
         layer = model.ensemble.output_layers[0 if shared else 1]
         layer.bias.value = bump(layer.bias.value)
+    if rng.random() < 0.4:
+        # outputs far from zero (unnormalised targets): member means around
+        # +-1e3 that differ by ~0.1 between members
+        layer = model.ensemble.output_layers[0]
+        b = np.array(layer.bias.value)
+        off = rng.choice([-1.0, 1.0], size=out) * rng.uniform(300, 3000, size=out)
+        b[:, :out] += off[None, :] + 0.1 * rng.normal(size=(b.shape[0], out))
+        layer.bias.value = jnp.asarray(b, jnp.float32)
+        res.see("large_offset_models")
     lo = np.asarray(model.min_log_var, np.float64)
     hi = np.asarray(model.max_log_var, np.float64)
     n = int(rng.choice([1, 2, 5]))
